@@ -50,7 +50,7 @@ func c18(r *rep.Run) {
 	}
 	ints := []int64{math.MinInt64, math.MinInt64 + 1, -2, -1, 0, 1, 2, math.MaxInt64 - 1, math.MaxInt64}
 	if r.Thorough() {
-		ints = append(ints, 3, -3, 1<<31, -(1 << 31), 1<<32 + 1, 10000)
+		ints = append(ints, 3, -3, 1<<31, -(1 << 31), 1<<32+1, 10000)
 	}
 	var vals []interface{}
 	for _, v := range ints {
